@@ -536,6 +536,17 @@ func displayKey(v ssa.Value) string {
 		}
 	case *ssa.Extract:
 		return displayKey(x.Tuple)
+	case *ssa.MakeSlice:
+		return "make(" + x.Type().String() + ")"
+	case *ssa.Alloc:
+		if x.Comment != "" {
+			return x.Comment
+		}
+	case *ssa.IndexAddr:
+		return displayKey(x.X) + "[]"
+	}
+	if c, ok := v.(*ssa.Call); ok && c.Common().IsInvoke() {
+		return c.Common().Method.Name() + "()"
 	}
 	return describeVal(v)
 }
